@@ -73,7 +73,8 @@ where
 
         // `self.iter.end` moves with `next_back`, use the spliced range end.
         let elements_left = self.original_len - self.end;
-        let replace_end = self.start + self.replace_with.len();
+        let replace_len = self.replace_with.len();
+        let replace_end = self.start + replace_len;
         let new_len = replace_end + elements_left;
 
         // 0. capacity.
@@ -108,19 +109,35 @@ where
             let type_id = element_typeid(any_vec_ptr);
             let element_size = element_size(any_vec_ptr);
             let mut ptr = element_mut_ptr_at(any_vec_ptr, self.start);
-            while let Some(replace_element) = self.replace_with.next() {
+            // Do not trust ExactSizeIterator::len(): take at most `replace_len` elements
+            // (space was reserved only for them).
+            let mut replaced = 0;
+            while replaced < replace_len {
+                let replace_element = match self.replace_with.next() {
+                    Some(replace_element) => replace_element,
+                    None => break
+                };
                 assert_types_equal(type_id, replace_element.value_typeid());
                 replace_element.move_into::<
                     <ReplaceIter::Item as AnyValueSizeless>::Type
                 >(ptr, element_size);
                 ptr = ptr.add(element_size);
+                replaced += 1;
             }
-        }
 
-        // 4. restore len
-        {
-            let any_vec_raw = unsafe{any_vec_ptr.any_vec_raw_mut()};
-            any_vec_raw.len = new_len;
+            // replace_with yielded less than promised - close the gap.
+            if replaced < replace_len {
+                move_elements_at(
+                    any_vec_ptr,
+                    replace_end,
+                    self.start + replaced,
+                    elements_left
+                );
+            }
+
+            // 4. restore len
+            let any_vec_raw = any_vec_ptr.any_vec_raw_mut();
+            any_vec_raw.len = self.start + replaced + elements_left;
         }
     }
 }
